@@ -71,6 +71,13 @@ def mutations_of_node(n: Node) -> Set[str]:
                 out.add(b.id)
     if isinstance(a, ast.AugAssign) and isinstance(a.target, ast.Name):
         out.add(a.target.id)
+    if isinstance(a, ast.Delete):
+        for t in a.targets:
+            b = t
+            while isinstance(b, (ast.Subscript, ast.Attribute)):
+                b = b.value
+            if isinstance(b, ast.Name) and b is not t:
+                out.add(b.id)
     body = a if n.kind != "for" else a.iter
     for c in ast.walk(body):
         if isinstance(c, ast.Call) and isinstance(c.func, ast.Attribute) and c.func.attr in _MUTATORS:
@@ -83,7 +90,9 @@ def mutations_of_node(n: Node) -> Set[str]:
 
 
 class ReachingDefs:
-    def __init__(self, func: ast.AST, with_mutations: bool = True):
+    def __init__(self, func: ast.AST, with_mutations: bool = True, extra_mut=None):
+        """extra_mut: optional callable(Node) -> names mutated at that node beyond
+        the syntactic model (e.g. arrays written by a callee, from effect summaries)"""
         self.func = func
         self.cfg = build_cfg(func)
         self.with_mutations = with_mutations
@@ -106,7 +115,10 @@ class ReachingDefs:
             if d:
                 state = frozenset(x for x in state if x[0] not in d) | frozenset((name, n.id) for name in d)
             if self.with_mutations:
-                m = mutations_of_node(n) - d
+                m = mutations_of_node(n)
+                if extra_mut is not None:
+                    m = m | set(extra_mut(n))
+                m = m - d
                 if m:
                     # a mutation is an additional (non-killing) definition
                     state = state | frozenset((name, n.id) for name in m)
